@@ -1,7 +1,7 @@
 //! Fragment alphabets of pest's concrete syntax and their enumeration.
 pub const FRAGMENTS: &[&str] = &[
     "a", "b_1", " ", "=", "_", "@", "$", "!", "{", "}", "(", ")", "[", "]", "~", "|", "?", "*", "+", "&", "\"a\"", "\"a", "'a'", "'a", "'a'..'b'", "..", "^\"a\"", "^", "\"\\u{D800}\"",
-    "\"\\u{DFFF}\"", "\"\\u{DFFE}\"", "\"\\u{E000}\"", "\"\\u{D7FF}\"", "\"\\u{10FFFF}\"", "\"\\u{110000}\"", "\"\\u{0}\"", "\"\\x8\"", "\"\\q\"", "\"\\u{41}\"", "'\\u{D800}'..'a'", "{0}", "{3}", "{1,}", "{,2}", "{1,2}", "{2,1}", "{,0}", "{1,0}", "{0,0}", "{0,1}", "{2,2}", "{4294967296}", "{1,99999999999}",
+    "\"\\u{DFFF}\"", "\"\\u{DFFE}\"", "\"\\u{E000}\"", "\"\\u{D7FF}\"", "\"\\u{10FFFF}\"", "\"\\u{110000}\"", "\"\\u{0}\"", "\"\\x8\"", "\"\\q\"", "\"\\u{41}\"", "'\\u{D800}'..'a'", "{0}", "{3}", "{1,}", "{,2}", "{1,2}", "{2,1}", "{,0}", "{1,0}", "{0,0}", "{0,1}", "{2,2}", "{00}", "{000}", "{,00}", "{0,00}", "{00,1}", "{01}", "{4294967296}", "{1,99999999999}",
     "PUSH", "PUSH(", "PEEK", "PEEK[", "PEEK[1..2]", "PEEK[99999999999..]", "PEEK[..-99999999999]", "PEEK[-1..]", "PUSH_LITERAL(\"a\")", "PUSH_LITERAL(", "#t =", "#", "//", "///", "//!", "/*", "*/", "é",
     "😀", "\r\n", "\n", ",", "-1", "0", "r = {", "ANY", "WHITESPACE",
     // characters that tools like to treat specially: byte order mark, NUL, line separator
@@ -12,7 +12,7 @@ pub const FRAGMENTS: &[&str] = &[
 
 /// Fragments that can occur inside a rule body (used for the deeper body-only enumeration).
 pub const BODY_FRAGMENTS: &[&str] = &[
-    "a", " ", "!", "(", ")", "~", "|", "?", "*", "+", "&", "\"a\"", "'a'..'b'", "^\"a\"", "{3}", "{1,}", "{,2}", "{2,1}", "{1,0}", "{0,1}", "PUSH(", "PEEK[1..2]", "PEEK[99999999999..]", "PUSH_LITERAL(\"a\")", "#t =", "\"\\u{D800}\"",
+    "a", " ", "!", "(", ")", "~", "|", "?", "*", "+", "&", "\"a\"", "'a'..'b'", "^\"a\"", "{3}", "{1,}", "{,2}", "{2,1}", "{1,0}", "{0,1}", "{00}", "{,00}", "PUSH(", "PEEK[1..2]", "PEEK[99999999999..]", "PUSH_LITERAL(\"a\")", "#t =", "\"\\u{D800}\"",
     "/*", "*/", "//", "\n", "é", "}", "{", "r", "=", "ANY",
 ];
 
